@@ -53,8 +53,15 @@ def main():
             pat = passed_set(wt)
             out["tests_base_passed"] = len(base)
             out["tests_patched_passed"] = len(pat)
-            out["tests_same"] = base == pat
-            out["tests_lost"] = sorted(base - pat)[:5]
+            lost = sorted(base - pat)
+            still = []
+            for t in lost:            # timing-sensitive tests flake under load: a lost test counts only if it fails again on its own
+                tid = t.split(" ", 1)[1] if " " in t else t
+                r = sh("cd %s && /venv/bin/python -m pytest -q -p no:cacheprovider --timeout=900 '%s' 2>&1 | tail -1" % (wt, tid))
+                if " passed" not in r.stdout:
+                    still.append(t)
+            out["tests_same"] = not still
+            out["tests_lost"] = still[:5]
         else:
             os.unlink(demo2)
         out["confirmed"] = out["demo_clean_exit"] == 0 and out["demo_patched_exit"] == 1 and out.get("tests_same", True)
